@@ -12,6 +12,7 @@ time …"); `no_deadlock_fixed` is the statement for the repaired variant `State
 kept during `with_locked_env`), where the "one at a time" clause of the guard is no longer needed.
 -/
 import SteelVerif.C16.Lemmas
+import SteelVerif.C16.LemmasRound
 namespace SteelVerif.C16
 open SteelVerif.C15
 set_option linter.unusedSimpArgs false
@@ -128,6 +129,24 @@ theorem stopper_progress {s : State} (h : Inv s) (hh : s.hostUsed = false) {a : 
     | resS o i => simp [enabledStep, hpc] at hen
     | resU o i => simp [enabledStep, hpc] at hen
 
+/-- Non-vacuity of `stopper_progress`: `C15.goodRound` (two threads; thread 0 is in the middle of a
+`with_locked_env` round and has begun to scan thread 1, which is parked at the dispatch poll) satisfies all
+hypotheses, with a stopper. -/
+example : canProgress (runG init goodRound) = true :=
+  stopper_progress (a := 0) (runG_inv goodRound inv_init) (by decide) (by decide)
+
+/-- The waiting case of `stopper_progress` (the stopper spins on `ctx[1]`, thread 1 is dispatching with its
+pause flag raised and can poll): the stopper's own step is not productive, the poll of thread 1 is. -/
+def spinWait : List (Tid × Act) :=
+  [(0, .spawn)] ++ List.replicate 3 (0, .step) ++ [(0, .setGlobal)] ++ List.replicate 12 (0, .step)
+
+example : (runG init spinWait).threads.map (·.pc) = [.spin .env 0 1, .run] ∧
+    productive (runG init spinWait) 0 .step = false ∧ productive (runG init spinWait) 1 .poll = true := by
+  decide
+
+example : canProgress (runG init spinWait) = true :=
+  stopper_progress (a := 0) (runG_inv spinWait inv_init) (by decide) (by decide)
+
 /-- No round in progress: a thread that waits for the runtime can move, or the holder of the lock it
 waits for can. -/
 theorem idle_progress {s : State} (h : Inv s) (hh : s.hostUsed = false) (hs : s.stopper = none)
@@ -217,6 +236,18 @@ theorem idle_progress {s : State} (h : Inv s) (hh : s.hostUsed = false) (hs : s.
   | resS o i => have := hc.nst; simp [hp, PC.isStopper] at this
   | resU o i => have := hc.nst; simp [hp, PC.isStopper] at this
 
+/-- Non-vacuity of `idle_progress`: thread 0 waits for the heap lock inside its allocation safepoint (its own
+step is not executable), thread 1 holds the lock and can move. -/
+def heapWait : List (Tid × Act) :=
+  [(0, .spawn), (0, .step), (0, .step), (0, .step), (1, .alloc), (1, .step), (0, .alloc)]
+
+example : (runG init heapWait).threads.map (·.pc) = [.inSafe .alloc, .exitCheck .alloc] ∧
+    step (runG init heapWait) 0 .step = none := by decide
+
+example : canProgress (runG init heapWait) = true :=
+  idle_progress (u := 0) (runG_inv heapWait inv_init) (by decide) (by decide)
+    (List.getElem?_eq_getElem (by decide : 0 < (runG init heapWait).threads.length)) (by decide)
+
 /-- In a state satisfying the invariant (no host interrupt issued) the runtime is not deadlocked. -/
 theorem inv_not_deadlocked {s : State} (h : Inv s) (hh : s.hostUsed = false) : deadlocked s = false := by
   simp only [deadlocked, Bool.and_eq_false_iff, Bool.not_eq_false']
@@ -246,6 +277,17 @@ if at all — on the script's own objects). -/
 theorem no_deadlock_partial (sched : List (Tid × Act)) :
     (runG init sched).hostUsed = false → deadlocked (runG init sched) = false :=
   inv_not_deadlocked (runG_inv sched inv_init)
+
+/-- Non-vacuity of `no_deadlock_partial`: the hypothesis holds on schedules that reach the middle of a round
+with two threads (`goodRound`, `spinWait`), a lock wait (`heapWait`) and an all-quiescent state in which
+the theorem holds by its second disjunct only (thread 1 inside a primitive, thread 0 finished). -/
+example : (runG init goodRound).hostUsed = false ∧ (runG init spinWait).hostUsed = false ∧
+    (runG init heapWait).hostUsed = false ∧ runG init goodRound = run init goodRound ∧
+    runG init spinWait = run init spinWait ∧ runG init heapWait = run init heapWait := by decide
+
+example :
+    let s := runG init [(0, .spawn), (0, .step), (0, .step), (0, .step), (1, .callPrim), (0, .finish)]
+    s.hostUsed = false ∧ canProgress s = false ∧ allQuiescent s = true := by decide
 
 /-! ## The dual-stopper deadlock (K16a) -/
 
@@ -346,6 +388,22 @@ theorem runGFix_inv (sched : List (Tid × Act)) : ∀ {s : State}, Inv s → s.f
         exact ih (step_inv h (gfix_imp_g h hf hg) hs) (by rw [step_fix hs]; exact hf)
     · exact ⟨h, hf⟩
 
+/-- **C15 for the current code under the weaker guard `GFix`** (no "rounds do not overlap" clause — it is implied
+by the heap lock): a thread that is being scanned is at a safe place, and when no round is in progress every
+live thread holds the newest global table. -/
+theorem scan_exclusive_fixed (sched : List (Tid × Act)) : (runGFix initFix sched).scanOk = true :=
+  scanOk_of_inv (runGFix_inv sched inv_initFix rfl).1
+
+theorem env_coherent_fixed (sched : List (Tid × Act)) :
+    (runGFix initFix sched).stopper = none → (runGFix initFix sched).envOk = true :=
+  inv_env (runGFix_inv sched inv_initFix rfl).1
+
+/-- Non-vacuity: a complete round under `GFix` (every line accepted), the new table everywhere. -/
+example : runGFix initFix (goodRound ++ goodRoundRest) = run initFix (goodRound ++ goodRoundRest) ∧
+    (runGFix initFix (goodRound ++ goodRoundRest)).ver = 1 ∧
+    (runGFix initFix (goodRound ++ goodRoundRest)).envOk = true :=
+  ⟨by decide, by decide, env_coherent_fixed _ (by decide)⟩
+
 /-- **C16 for the repaired variant** (`let _guard = …` instead of `let _ = …` in front of
 `with_locked_env`): the runtime does not deadlock, for every number of threads and every schedule, without
 assuming that stop requests do not overlap — two threads that assign globals, or a collector and an
@@ -373,6 +431,30 @@ theorem dualStopper_fixed :
     let s := runGFix initFix dualStopperFix
     deadlocked s = false ∧ (s.threads.map (·.pc)) = [.acc .env 0 1, .inSafe .gate] ∧
     step s 1 .step = none := by decide
+
+/-- Non-vacuity of `gfix_imp_g`: in the repaired variant (two threads) thread 0 is at `envReady` and about to
+stop the world — the clause of `G` that `GFix` lacks ("no round in progress") follows; and, four lines later,
+thread 0 is a stopper at `stopP .env 1` while thread 1 waits at the gate. -/
+example : pcAt (runGFix initFix (dualStopperFix.take 8)) 0 = some .envReady ∧
+    pcAt (runGFix initFix (dualStopperFix.take 12)) 0 = some (.stopP .env 1) ∧
+    (runGFix initFix (dualStopperFix.take 12)).stopper = some 0 := by decide
+
+example : G (runGFix initFix (dualStopperFix.take 8)) 0 .step = true :=
+  gfix_imp_g (runGFix_inv (dualStopperFix.take 8) inv_initFix rfl).1 (by decide) (by decide)
+
+example : G (runGFix initFix (dualStopperFix.take 12)) 0 .step = true :=
+  gfix_imp_g (runGFix_inv (dualStopperFix.take 12) inv_initFix rfl).1 (by decide) (by decide)
+
+/-- Non-vacuity of `no_deadlock_fixed` / `no_deadlock_code`: the hypothesis holds in the state of
+`dualStopper_fixed` (two threads, thread 0 scanning thread 1, which is blocked on the heap lock), the guard
+accepted every line, and the conclusion holds there because the stopper can move. -/
+example :
+    let s := runGFix initFix dualStopperFix
+    s.hostUsed = false ∧ s = run initFix dualStopperFix ∧ s.stopper = some 0 ∧ canProgress s = true ∧
+    allQuiescent s = false := by decide
+
+example : deadlocked (runGFix C15.code dualStopperFix) = false :=
+  no_deadlock_code dualStopperFix (by decide)
 
 /-! ## A round terminates -/
 
@@ -496,10 +578,119 @@ theorem round_rank_decreases {s s' : State} {t : Tid} {th th' : Thread}
     · cases hs; have := hput _ _ (upd_len _ _ _) hth'; subst this
       simp [roundRank, idxOk, PC.isStopper] <;> omega
 
-/-- **A stop round terminates** (in the stopper's own steps): alias of `round_rank_decreases` with the
-bound spelled out — the rank of a round that has just begun. -/
-theorem stop_round_terminates (len : Nat) (o : Op) : roundRank len (.stopP o 0) = 9 * len + 13 := by
+/-- Non-vacuity of `round_rank_decreases`: in `goodRound` thread 0 is at `acc .env 0 1`; its next step is
+executable, moves it to `spin .env 0 2` (still a stopper, index within bounds) and lowers the rank 20 → 19. -/
+example :
+    let s := run init goodRound
+    (match step s 0 .step with
+     | some s' => pcAt s' 0 == some (.spin .env 0 2)
+     | none => false) = true ∧
+    pcAt s 0 = some (.acc .env 0 1) ∧ idxOk s.threads.length (.acc .env 0 1) = true ∧
+    roundRank s.threads.length (.spin .env 0 2) = 19 ∧ roundRank s.threads.length (.acc .env 0 1) = 20 := by
+  decide
+
+example (s' : State) (th' : Thread) (hs : step (run init goodRound) 0 .step = some s')
+    (hth' : s'.threads[0]? = some th') (hne : th'.pc ≠ .acc .env 0 1) :
+    roundRank 2 th'.pc < roundRank 2 (.acc .env 0 1) :=
+  (round_rank_decreases (s := run init goodRound) (t := 0)
+    (th := (run init goodRound).threads[0]'(by decide)) (List.getElem?_eq_getElem _) (by decide) (by decide)
+    hs hth' hne).1
+
+/-- The rank of a round that has just begun. -/
+theorem roundRank_begin (len : Nat) (o : Op) : roundRank len (.stopP o 0) = 9 * len + 13 := by
   simp [roundRank]; omega
+
+/-- Number of lines of `sched` at which thread `t`, being a stopper, changes its pc; counting stops when `t`
+is no longer a stopper (its round is over) or at the first line that is not executable. -/
+def roundMoves (t : Tid) : State → List (Tid × Act) → Nat
+  | _, [] => 0
+  | s, (u, a) :: rest =>
+      if (pcAt s t).any PC.isStopper then
+        match step s u a with
+        | none => 0
+        | some s' => (if u = t ∧ pcAt s' t ≠ pcAt s t then 1 else 0) + roundMoves t s' rest
+      else 0
+
+theorem roundMoves_not_stopper {s : State} {t : Tid} {th : Thread} (hth : s.threads[t]? = some th)
+    (hst : ¬ th.pc.isStopper = true) (sched : List (Tid × Act)) : roundMoves t s sched = 0 := by
+  cases sched with
+  | nil => rfl
+  | cons x rest => obtain ⟨u, a⟩ := x; simp [roundMoves, pcAt_of hth, hst]
+
+/-- **A stop round terminates** (in the stopper's own steps), for every interleaving with the steps of the
+other threads: along every schedule without a spawn (the guard's clause "no thread is spawned during a
+round": a spawn lengthens the list the stopper walks), from every state in which `t`'s list index is within
+bounds, thread `t` changes its pc at most `roundRank len pc` times before its round is over — at most
+`9·len + 13` times from the beginning of the round (`roundRank_begin`).  Every other line of the stopper is a
+`ctx.load()` that keeps spinning, and then `stopper_progress` says the awaited thread can move.  No fairness of
+the OS scheduler is assumed or proved: the theorem bounds the work, it does not say the steps are taken. -/
+theorem stop_round_terminates (t : Tid) (sched : List (Tid × Act)) (hns : ∀ x ∈ sched, x.2 ≠ Act.spawn) :
+    ∀ (s : State) (th : Thread), s.threads[t]? = some th → idxOk s.threads.length th.pc = true →
+      roundMoves t s sched ≤ roundRank s.threads.length th.pc := by
+  induction sched with
+  | nil => intro s th _ _; simp [roundMoves]
+  | cons x rest ih =>
+    intro s th hth hidx
+    obtain ⟨u, a⟩ := x
+    have hns' : ∀ x ∈ rest, x.2 ≠ Act.spawn := fun x hx => hns x (List.mem_cons_of_mem _ hx)
+    have ha : a ≠ .spawn := hns (u, a) (List.mem_cons_self ..)
+    by_cases hst : th.pc.isStopper = true
+    · cases hs : step s u a with
+      | none => simp [roundMoves, hs]
+      | some s' =>
+        have hlen := step_len ha hs
+        have e : roundMoves t s ((u, a) :: rest) =
+            (if u = t ∧ pcAt s' t ≠ pcAt s t then 1 else 0) + roundMoves t s' rest := by
+          simp [roundMoves, pcAt_of hth, hst, hs]
+        rw [e]
+        by_cases hut : u = t
+        · subst hut
+          have hl' : u < s'.threads.length := by rw [hlen]; exact lt_of_get hth
+          have hth' : s'.threads[u]? = some s'.threads[u] := List.getElem?_eq_getElem hl'
+          generalize s'.threads[u] = th' at hth'
+          rw [pcAt_of hth, pcAt_of hth']
+          by_cases hch : th'.pc = th.pc
+          · have := ih hns' s' th' hth' (by rw [hlen, hch]; exact hidx)
+            rw [hlen, hch] at this
+            simp [hch]; exact this
+          · have hstep : a = .step := by
+              apply Classical.byContradiction
+              intro hna
+              exact hch (step_self_nonstep hth hst hna hs hth')
+            subst hstep
+            obtain ⟨hlt, hidx'⟩ := round_rank_decreases hth hst hidx hs hth' hch
+            by_cases hst' : th'.pc.isStopper = true
+            · have := ih hns' s' th' hth' (by rw [hlen]; exact hidx' hst')
+              rw [hlen] at this
+              simp [hch]; omega
+            · rw [roundMoves_not_stopper hth' hst']
+              simp [hch]; omega
+        · obtain ⟨_, hpc⟩ := step_other (t := t) hut ha hs
+          have hpc' := hpc
+          rw [pcAt_of hth] at hpc'
+          obtain ⟨th', hth', hpe⟩ := of_pcAt hpc'
+          have := ih hns' s' th' hth' (by rw [hlen, hpe]; exact hidx)
+          rw [hlen, hpe] at this
+          simp [hut]; exact this
+    · rw [roundMoves_not_stopper hth hst]; exact Nat.zero_le _
+
+/-- The hypothesis "no spawn" of `stop_round_terminates` is the guard's: both `G` and `GFix` accept a spawn line
+of an existing thread only when no round is in progress. -/
+theorem guard_no_spawn_in_round {s : State} {u : Tid} {th : Thread} (hth : s.threads[u]? = some th)
+    (hg : G s u .spawn = true ∨ GFix s u .spawn = true) : s.stopper = none := by
+  rcases hg with hg | hg
+  · cases hp : th.pc <;> simp [G, hth, hp] at hg <;> exact hg
+  · cases hp : th.pc <;> simp [GFix, hth, hp] at hg <;> exact hg
+
+/-- Non-vacuity of `stop_round_terminates`: the round of `goodRound ++ goodRoundRest` (two threads, thread 1
+polls, parks and is scanned twice) from the state in which thread 0 has just entered `stop_threads`: the
+stopper changes its pc 23 times, the bound is `9·2 + 13 = 31`, and the round is over at the end. -/
+example :
+    let s := run init (goodRound.take 9)
+    let rest := goodRound.drop 9 ++ goodRoundRest
+    pcAt s 0 = some (.stopP .env 0) ∧ (∀ x ∈ rest, x.2 ≠ Act.spawn) ∧
+    roundMoves 0 s rest = 23 ∧ roundRank s.threads.length (.stopP .env 0) = 31 ∧
+    pcAt (run s rest) 0 = some .run ∧ (run s rest).stopper = none := by decide
 
 /-! ## Script-level objects -/
 
@@ -604,6 +795,111 @@ theorem join_once (ops : List HOp) :
         · exact ih _ v hv
   exact key ops {} v hv
 
+/-- The invariant of a join handle. -/
+def Handle.Good (h : Handle) : Prop := (h.taken = true ↔ h.delivered = 1) ∧ h.delivered ≤ 1
+
+theorem Handle.good_finish {h : Handle} (g : h.Good) (v : Nat) : (h.finish v).Good := by
+  unfold Handle.finish; split <;> exact g
+
+theorem Handle.good_join {h : Handle} (g : h.Good) : h.join.1.Good := by
+  obtain ⟨g1, g2⟩ := g
+  unfold Handle.join
+  split
+  · exact ⟨g1, g2⟩
+  · rename_i htk
+    split
+    · exact ⟨g1, g2⟩
+    · have : h.delivered = 0 := by
+        have : ¬ h.delivered = 1 := fun e => htk (g1.mpr e)
+        omega
+      simp [Handle.Good, this]
+
+theorem Handle.run_facts (ops : List HOp) : ∀ (h : Handle), h.Good →
+    (h.run ops).1.Good ∧ h.delivered ≤ (h.run ops).1.delivered ∧
+    (h.result.isSome = true → (h.run ops).1.result.isSome = true) := by
+  induction ops with
+  | nil => intro h g; exact ⟨g, Nat.le_refl _, id⟩
+  | cons o r ih =>
+    intro h g
+    cases o with
+    | finish v =>
+      simp only [Handle.run]
+      obtain ⟨a, b, c⟩ := ih _ (Handle.good_finish g v)
+      refine ⟨a, ?_, fun hr => c ?_⟩
+      · have : (h.finish v).delivered = h.delivered := by unfold Handle.finish; split <;> rfl
+        omega
+      · unfold Handle.finish; split <;> simp_all
+    | join =>
+      simp only [Handle.run]
+      obtain ⟨a, b, c⟩ := ih _ (Handle.good_join g)
+      have hd : h.delivered ≤ h.join.1.delivered ∧ (h.result.isSome = true → h.join.1.result.isSome = true) := by
+        unfold Handle.join
+        split
+        · exact ⟨Nat.le_refl _, id⟩
+        · split
+          · exact ⟨Nat.le_refl _, id⟩
+          · exact ⟨by simp, by simp_all⟩
+      exact ⟨a, by omega, fun hr => c (hd.2 hr)⟩
+
+theorem Handle.run_append (a b : List HOp) : ∀ (h : Handle),
+    (h.run (a ++ b)).1 = ((h.run a).1.run b).1 := by
+  induction a with
+  | nil => intro h; rfl
+  | cons o r ih =>
+    intro h
+    cases o with
+    | finish v => simp only [List.cons_append, Handle.run]; exact ih _
+    | join => simp only [List.cons_append, Handle.run]; exact ih _
+
+/-- **… exactly once**: if the thread finishes and `thread-join!` is called at least once afterwards (calls
+before the exit keep waiting — `notFinished` — and are followed by such a call when they return), exactly one
+of all the calls, in any order and by any threads, receives a value. -/
+theorem join_exactly_once (pre mid post : List HOp) (v : Nat) :
+    let r := ({} : Handle).run (pre ++ .finish v :: (mid ++ .join :: post))
+    (r.2.filter isValue).length = 1 := by
+  intro r
+  have hcount := (handle_run_inv (pre ++ .finish v :: (mid ++ .join :: post)) {} (by simp) (by simp)).1
+  have g0 : ({} : Handle).Good := by simp [Handle.Good]
+  have e : r.1 = (((((({} : Handle).run pre).1.finish v).run mid).1.join.1).run post).1 := by
+    show (({} : Handle).run (pre ++ .finish v :: (mid ++ .join :: post))).1 = _
+    rw [Handle.run_append]
+    simp only [Handle.run]
+    rw [Handle.run_append]
+    simp only [Handle.run]
+  obtain ⟨g1, -, -⟩ := Handle.run_facts pre {} g0
+  have g2 := Handle.good_finish g1 v
+  have s2 : (((({} : Handle).run pre).1.finish v).result.isSome = true) := by
+    unfold Handle.finish; split <;> simp_all
+  obtain ⟨g3, -, s3⟩ := Handle.run_facts mid _ g2
+  have s3 := s3 s2
+  have g4 := Handle.good_join g3
+  have d4 : (((((({} : Handle).run pre).1.finish v).run mid).1.join.1).delivered = 1) := by
+    generalize (((({} : Handle).run pre).1.finish v).run mid).1 = h3 at g3 s3 g4 ⊢
+    obtain ⟨g31, g32⟩ := g3
+    unfold Handle.join
+    split
+    · rename_i htk; exact g31.mp htk
+    · rename_i htk
+      cases hr : h3.result with
+      | none => simp [hr] at s3
+      | some w =>
+        have : ¬ h3.delivered = 1 := fun e => htk (g31.mpr e)
+        simp; omega
+  obtain ⟨g5, m5, -⟩ := Handle.run_facts post _ g4
+  have : r.1.delivered = 1 := by
+    rw [e]
+    have := g5.2
+    omega
+  simp only at hcount
+  show ((({} : Handle).run (pre ++ .finish v :: (mid ++ .join :: post))).2.filter isValue).length = 1
+  have hr : r = ({} : Handle).run (pre ++ .finish v :: (mid ++ .join :: post)) := rfl
+  rw [hr] at this
+  omega
+
+/-- Non-vacuity of `join_exactly_once` (`pre = [join]`, `mid = [join-less finish]`, `post = [join, finish]`). -/
+example : ((({} : Handle).run ([.join] ++ .finish 7 :: ([.finish 8] ++ .join :: [.join, .finish 9]))).2.filter
+    isValue) = [.value 7] := by decide
+
 theorem chan_inv (ops : List COp) : ∀ (c : Chan), c.recvd ++ c.queue = c.sent →
     (c.run ops).recvd ++ (c.run ops).queue = (c.run ops).sent := by
   induction ops with
@@ -641,5 +937,32 @@ theorem channel_example :
 theorem join_example :
     (({} : Handle).run [.join, .finish 7, .join, .join, .finish 9]).2
       = [.notFinished, .value 7, .alreadyJoined] := by decide
+
+/-! ## Clauses of the property not carried by a theorem
+
+* "every collection and every global definition or assignment COMPLETES" and "every thread that is not blocked
+  by the script's own logic KEEPS RUNNING": the theorems say that in every reachable guarded state SOME thread
+  can take a productive runtime step (`no_deadlock_*`) and that a round needs at most `9·len + 13` productive
+  steps of its stopper (`stop_round_terminates`).  That the steps are taken (fairness of the OS scheduler), and
+  progress of EACH thread rather than of the system (no starvation of a particular thread, e.g. of a thread
+  waiting for the heap lock while others allocate in turn), is not a theorem.
+* The excluded schedules: a spawn or a host `interrupt()` during a round, a stop request reaching a thread
+  that is leaving a safepoint (guard `GFix` / `G`), and every schedule containing a host interrupt
+  (`hostUsed = false`); for the protocol before d9e2a72a also overlapping stop requests (false there:
+  `dual_stopper_deadlock`).
+* "blocking on joins, channels and locks … made directly or through higher-order library procedures": a blocked
+  thread is `inSafe prim` in the model, i.e. it IS published; that every call path of a blocking built-in
+  publishes the thread is the regenerated table `blocking_paths_publish`, which is FALSE for the paths in
+  `knownUnpublished` (K16b): a thread blocked on one of those paths is not covered by any theorem.
+* "with native code generation on or off": the model has one dispatch loop; JIT call paths appear only in the
+  call-path table.
+* Thread exit (`steel_rc::with_explicit_merge`, removal from `threads`): `done` threads stay in the list and
+  are skipped; the merge is not modelled.
+* `join_once` / `join_exactly_once` / `channel_fifo_per_sender` are about the SPECIFICATIONS of `JoinHandle`
+  and `crossbeam_channel::unbounded` (one handle, one channel, `Nat` payloads), not about the handshake model:
+  that a thread blocked in `thread-join!` / `channel/recv` is woken when the value arrives, mutexes
+  (`lock-acquire!`), bounded channels and `receivers-select` are not modelled.
+* Relaxed atomics (the model is sequentially consistent), wall-clock bounds.
+All of these are covered only by the program-level differential run (checks/c16.py). -/
 
 end SteelVerif.C16
